@@ -364,7 +364,13 @@ def compare_repr(case, ep, variant, tag, res1, res2, o, amp, precision, gap_ok, 
             case.check(ub == uo, 'unit', mech, base=ub, variant=uo)
         if k.md and k.per_row and well is not None and isinstance(cb, np.ndarray) and isinstance(co, np.ndarray) \
                 and cb.shape[:1] == well.shape and co.shape[:1] == well.shape:
-            cb, co = cb[well], co[well]
+            sel = well
+            if name.endswith('_err') and '_err_undefined' in out1 and '_err_undefined' in out2:
+                und = np.asarray(out1['_err_undefined'], bool) | np.asarray(out2['_err_undefined'], bool)
+                if und.shape == sel.shape:
+                    case.note(f'err_columns_not_judged:{ep.name}', int((sel & und).sum()))
+                    sel = sel & ~und
+            cb, co = cb[sel], co[sel]
         is_int = kind in epm.INT_KINDS or (kind == 'frame' and np.asarray(cb).dtype.kind in 'iub')
         if precision and (is_int or name in ('n', 'nlabels', 'id', 'label_ids', 'labels', 'areas', 'npix',
                                              'npixfit', 'group_id', 'group_size', 'flags')):
